@@ -79,7 +79,9 @@ def node(draw, inp, depth, allow_pass=True):
         total += n_in - len(used)
     if total == 0:
         total = 0
-    return dict(t="columns", transformers=trs, remainder=remainder, byname=byname), ("array", total)
+    # positions may be written from the end (-1 is the last column), as scikit-learn allows; the spec keeps the non-negative positions
+    negative = (not byname) and draw(st.integers(0, 3)) == 0
+    return dict(t="columns", transformers=trs, remainder=remainder, byname=byname, n_in=n_in, negative=negative), ("array", total)
 
 
 @st.composite
@@ -175,7 +177,7 @@ def build(spec, subclass=False, cols_kind="list"):
     if t == "union":
         return (FeatureUnionSub if subclass else FeatureUnion)([(_name("u"), build(s, subclass, cols_kind)) for s in spec["members"]])
     if t == "columns":
-        return (ColumnTransformerSub if subclass else ColumnTransformer)([(_name("c"), build(tr["tr"], subclass, cols_kind), _cols(tr["cols"], cols_kind)) for tr in spec["transformers"]],
+        return (ColumnTransformerSub if subclass else ColumnTransformer)([(_name("c"), build(tr["tr"], subclass, cols_kind), _cols([c - spec["n_in"] for c in tr["cols"]] if spec.get("negative") else tr["cols"], cols_kind)) for tr in spec["transformers"]],
                                                                          remainder=spec["remainder"])
     raise ValueError(t)
 
